@@ -308,8 +308,9 @@ def validate (ls : List Line) : Option Result :=
 /-- `AsmParser::parse`. -/
 def parse (fuel : Nat) (input : String) : Result :=
   match run Gen.mrasm fuel (.rule "file") true input.toList with
-  | none => .syntaxError
-  | some (ts, _) =>
+  | .fail => .syntaxError
+  | .oof => .syntaxError   -- not reached with `defaultFuel` (the correspondence runs would show it)
+  | .ok ts _ =>
     match ts with
     | [] => .panic "Infallible: Header must exist"
     | header :: rest =>
